@@ -85,6 +85,15 @@ def mbtiles_format_rules(ck, P):
         ck.check(rtab == spec, "R-CODE", "mbtiles.format|reader", "reader maps the format strings back to the same (format, compression)", "reader table %s differs from %s" % (rtab, spec), ir.loc(mr))
 
 
+def _derived(body, binds):
+    """locals initialised from expressions that mention one of `binds` (one step: `let range = writer.append(&blob)`, `let id = coord.get_tile_id()`)"""
+    out = set()
+    for n in ir.walk_nodes(body):
+        if n.get("k") == "let" and "init" in n and any(z.get("k") == "path" and z.get("r") == "local" and z.get("hid") in binds for z in ir.walk_nodes(n["init"])):
+            out |= {x["hid"] for x in ir.pat_binds(n["pat"])}
+    return out
+
+
 def _emptiness_fact(f):
     """does the fact say that something is empty / zero / absent?"""
     if f[0] == "pred":
@@ -125,6 +134,112 @@ def write_complete_rules(ck, P):
                 bad.append("%s at %s under %s" % (n["k"], ir.loc(n), [" ".join(map(str, f[1:])) for f in fs][-2:] or "no condition"))
     ck.check(not bad, "R-WRITE-COMPLETE", "writers|exits", "every early `return Ok` / `continue` / `break` in the writers' own control flow is taken only when there is nothing to write (%d exit(s))" % n_exits,
              "a writer ends work early although there may be something to write: %s" % bad[:3])
+    # (c) per tile, the sink is called exactly once with that tile's payload
+    SINKS = (("::TarTilesWriter", "write_to_path", ("tar::builder::Builder::append_data",)),
+             ("::DirectoryTilesWriter", "write_to_path", ("DirectoryTilesWriter::write",)),
+             ("::PMTilesWriter", "write_to_writer", ("DataWriterTrait::append", "EntriesV3::push")),
+             ("::MBTilesWriter", "write_to_path", ("MBTilesWriter::add_tiles",)))
+    for suffix, mname, sinks in SINKS:
+        impl = [i for i in P.impls_of("::TilesWriterTrait") if i.get("self_adt", "").endswith(suffix)]
+        m = P.impl_method(impl[0], mname, inline=False) if impl else None
+        if not ck.anchor("R-WRITE-COMPLETE", suffix.strip(":") + "::" + mname, [m] if m else [], 1):
+            continue
+        # the loop / callback that receives the tiles of a stream: innermost `while let` over stream.next() or closure handed to for_each_*
+        bodies = []
+        for n in ir.walk_nodes(m["body"]):
+            if n.get("k") == "while" and ir.contains(n["c"], lambda y: y.get("k") == "mcall" and y.get("name") == "next"):
+                bodies.append((n["body"], {x["hid"] for x in ir.pat_binds(ir.unparen(n["c"]).get("pat") or {})} if ir.unparen(n["c"]).get("k") == "letx" else set()))
+            if n.get("k") == "mcall" and n.get("name", "").startswith("for_each") and n.get("a") and n["a"][-1].get("k") == "closure":
+                c = n["a"][-1]
+                bodies.append((c["body"], {x["hid"] for p_ in c["params"] for x in ir.pat_binds(p_)}))
+        if not ck.check(len(bodies) == 1, "R-WRITE-COMPLETE", suffix.strip(":") + "|tile-loop", "one loop / callback consumes the tile stream", "%d tile loops found" % len(bodies), ir.loc(m)):
+            continue
+        body, binds = bodies[0]
+        # locals derived from the bound (coord, blob): `let (coord, blob) = entry;`
+        for n in ir.walk_nodes(body):
+            if n.get("k") == "let" and "init" in n and ir.local_hid(n["init"]) in binds:
+                binds |= {x["hid"] for x in ir.pat_binds(n["pat"])}
+        for sk in sinks:
+            counts = mvt.exit_counts(P, {"body": body}, lambda y, sk=sk: 1 if (y.get("k") in ("mcall", "call") and (ir.callee(y) or y.get("q") or "").endswith(sk)) else None)
+            calls = [y for y in ir.walk_nodes(body) if y.get("k") in ("mcall", "call") and (ir.callee(y) or y.get("q") or "").endswith(sk)]
+            fed = bool(calls) and all(any(z.get("k") == "path" and z.get("r") == "local" and z.get("hid") in binds for z in ir.walk_nodes(c_)) or
+                                      any(z.get("k") == "path" and z.get("r") == "local" and z.get("hid") in _derived(body, binds) for z in ir.walk_nodes(c_)) for c_ in calls)
+            ck.check(counts == {1} and fed, "R-WRITE-COMPLETE", "%s|%s" % (suffix.strip(":"), sk.rsplit("::", 1)[-1]),
+                     "per tile (batch) of the stream `%s` is called exactly once on every path, with data of that tile" % sk,
+                     "`%s` is called %s time(s) per tile%s: tiles are missing from (or duplicated in) the output" % (sk, sorted(counts), "" if fed else " and not with the tile it received"), ir.loc(m))
+    at = [b for b in fns if b["q"].endswith("mbtiles::writer::MBTilesWriter::add_tiles")]
+    if ck.anchor("R-WRITE-COMPLETE", "MBTilesWriter::add_tiles", at, 1):
+        b = at[0]
+        loops = [n for n in ir.walk_nodes(b["body"]) if n.get("k") == "for"]
+        okl = False
+        if len(loops) == 1:
+            params = [x for p_ in b["params"] for x in ir.pat_binds(p_) if x["name"] != "self"]
+            over_all = bool(params) and ir.local_hid(loops[0]["iter"]) == params[0]["hid"]
+            c1 = mvt.exit_counts(P, {"body": loops[0]["body"]}, lambda y: 1 if (y.get("k") == "mcall" and (y.get("q") or "").endswith("Connection::execute")) else None)
+            esc = [y["k"] for y in ir.walk_nodes(loops[0]["body"]) if y.get("k") in ("break", "continue")]
+            okl = over_all and c1 == {1} and not esc
+        c2 = mvt.exit_counts(P, b, lambda y: 1 if (y.get("k") == "mcall" and (y.get("q") or "").endswith("Transaction::commit")) else None)
+        ck.check(okl and c2 == {1}, "R-WRITE-COMPLETE", b["q"], "add_tiles inserts every tile of the batch once and commits the transaction exactly once on every successful path",
+                 "add_tiles does not insert every tile of its batch once and commit once (per-tile inserts ok=%s, commits per call %s): a batch is silently not persisted" % (okl, sorted(c2)), ir.loc(b))
+    # (d) the values that describe what was written
+    from . import affine as A
+    pm = [i for i in P.impls_of("::TilesWriterTrait") if i.get("self_adt", "").endswith("::PMTilesWriter")]
+    pmw = P.impl_method(pm[0], "write_to_writer", inline=False) if pm else None
+    if pmw is not None:
+        ne = [y for y in ir.walk_nodes(pmw["body"]) if y.get("k") == "call" and (y.get("q") or "").endswith("EntryV3::new") and len(y.get("a", ())) == 3]
+        ck.check(len(ne) == 1 and ir.const_eval(ne[0]["a"][2], {}) == 1, "R-WRITE-COMPLETE", "PMTilesWriter|run-length", "every directory entry written stands for exactly one tile id (run_length 1)",
+                 "directory entries are written with run_length %s: the following tile ids resolve to this tile as well" % ([ir.const_eval(y["a"][2], {}) for y in ne]), ir.loc(pmw))
+        env = A.Env()
+        A.run(ir.stmts_of(ir.fn_block(pmw)), env)
+        td = [y for y in ir.walk_nodes(pmw["body"]) if y.get("k") == "assign" and ir.place_str(y["l"]).endswith(".tile_data")]
+        okt = False
+        shown = "?"
+        if len(td) == 1:
+            r = ir.strip(td[0]["r"])
+            if r.get("k") == "call" and (r.get("q") or "").endswith("ByteRange::new") and len(r["a"]) == 2:
+                off, ln = A.ev(r["a"][0], env), A.ev(r["a"][1], env)
+                # positions are opaque results of get_position(): compare structurally — length == (second position) - (first position), offset == first
+                def direct_pos(e):
+                    e = ir.strip(e)
+                    while e is not None and e.get("k") in ("try", "await"):
+                        e = ir.strip(e["e"])
+                    return e is not None and e.get("k") == "mcall" and (e.get("q") or "").endswith("DataWriterTrait::get_position")
+                gp = [y for y in ir.walk_nodes(pmw["body"]) if y.get("k") == "let" and "init" in y and y["pat"].get("k") == "bind" and direct_pos(y["init"])]
+                if len(gp) == 2:
+                    first, second = A.local_sym(gp[0]["pat"]), A.local_sym(gp[1]["pat"])
+                    env2 = A.Env()
+                    off, ln = A.ev(r["a"][0], env2), A.ev(r["a"][1], env2)
+                    okt = A.eq(off, first) and A.eq(ln, A.sub(second, first))
+                    shown = "(%s, %s)" % (A.show(off), A.show(ln))
+        ck.check(okt, "R-WRITE-COMPLETE", "PMTilesWriter|tile-data-range", "header.tile_data = (position before the tiles, position after - position before)",
+                 "header.tile_data is %s, not (start of the tile section, its length)" % shown, ir.loc(pmw))
+    tw = [i for i in P.impls_of("::TilesWriterTrait") if i.get("self_adt", "").endswith("::TarTilesWriter")]
+    tww = P.impl_method(tw[0], "write_to_path", inline=False) if tw else None
+    if tww is not None:
+        # every append_data is preceded, in the same block, by set_size(<the appended data>.len()) on the header it passes
+        bad_sz = []
+        n_app = 0
+        for blk in ir.walk_nodes(tww["body"]):
+            if blk.get("k") != "block":
+                continue
+            sts = ir.stmts_of(blk)
+            for i_, st in enumerate(sts):
+                for y in ir.walk_nodes(st):
+                    if y.get("k") == "mcall" and (y.get("q") or "").endswith("Builder::append_data") and len(y.get("a", ())) == 3 and not any(
+                            z.get("k") == "block" and z is not st and ir.contains(z, lambda w: w is y) for z in ir.walk_nodes(st)):
+                        n_app += 1
+                        hh = ir.local_hid(y["a"][0])
+                        data = ir.strip(y["a"][2])
+                        while data is not None and data.get("k") == "mcall" and data.get("name") in ("as_slice", "as_ref", "as_bytes") and not data.get("a"):
+                            data = ir.strip(data["recv"])
+                        dh = ir.local_hid(data) if data is not None else None
+                        okz = any(z.get("k") == "mcall" and z.get("name") == "set_size" and ir.local_hid(z["recv"]) == hh and
+                                  ir.contains(z["a"][0], lambda w: w.get("k") == "mcall" and w.get("name") == "len" and ir.local_hid(w["recv"]) == dh)
+                                  for s2 in sts[:i_] for z in ir.walk_nodes(s2))
+                        if not okz:
+                            bad_sz.append(ir.loc(y))
+        ck.check(n_app >= 2 and not bad_sz, "R-WRITE-COMPLETE", "TarTilesWriter|member-size", "every tar member's header carries the length of the data appended with it (%d append_data call(s))" % n_app,
+                 "append_data at %s is not preceded by header.set_size(<that data>.len()): the member is truncated or the archive is corrupt" % bad_sz, ir.loc(tww))
     wb = [b for b in fns if b["q"].endswith("versatiles::writer::VersaTilesWriter::write_block")]
     if ck.anchor("R-WRITE-COMPLETE", "VersaTilesWriter::write_block", wb, 1):
         b = wb[0]
